@@ -102,7 +102,7 @@ def parseObs (j : Json) : Except String Obs := do
 
 /-- compare a model result with the observation; evaluate the expected content on the observation -/
 def judge (dOut : Nat) (model : Option (TC dOut)) (mDflt : Int) (expect : Option (Content Coord Int))
-    (obs : Obs) (tags : List String) (altDflt : Option Int := none) : StageOut :=
+    (obs : Obs) (tags : List String) : StageOut :=
   let mj := match model with | some t => treeJsonC dOut t | none => Json.str "ERR"
   match obs.err with
   | some e =>
@@ -128,12 +128,7 @@ def judge (dOut : Nat) (model : Option (TC dOut)) (mDflt : Int) (expect : Option
         (match expect with
          | some ec => s!"content {(contentJson c).compress} expected {(contentJson ec).compress}"
          | none => "an exception was expected")
-      -- diagnostic only: the content would be right relative to the *input's* default
-      let dropped := !spec && wf && (match altDflt, expect with
-        | some a, some ec => decide (content a dOut out = ec)
-        | _, _ => false)
-      { agree, spec, tags := tags ++ (if c.isEmpty then ["emptyResult"] else []) ++
-          (if dropped then ["defaultDroppedOnly"] else []), model := mj, why }
+      { agree, spec, tags := tags ++ (if c.isEmpty then ["emptyResult"] else []), model := mj, why }
 
 def treeTags (dflt : Int) (d : Nat) (t : TC d) : List String :=
   (if decide (nonEmpty dflt d t = t) then ["canonical"] else ["hasEmptyOrDefault"]) ++
@@ -225,8 +220,8 @@ def runStage (st : Json) : Except String StageOut := do
     let tags := ["unflatten", s!"k{k}", s!"levels{L}"] ++ (if allEmptyAt dflt r k t then ["guardAllEmpty"] else []) ++
       (if noShape then ["undeclaredEmptyRank"] else []) ++
       (if m.isNone then ["modelErr"] else []) ++ treeTags dflt _ t
-    -- `Tensor.unflattenRanks` does not carry the default over: the result has default 0
-    pure (judge (r + 2 + l + k) m 0 (some exp) obs tags (some dflt))
+    -- `Tensor.unflattenRanks` builds its result with the operand's default (/repo e4536c9)
+    pure (judge (r + 2 + l + k) m dflt (some exp) obs tags)
   | _ => throw s!"C09: unknown op {op}"
 
 end C09D
